@@ -17,9 +17,12 @@ type schemaGen struct {
 	r      *hx.Rand
 	feats  []string
 	sloppy int // remaining decisions that may ignore the construction rules
-	spec   *Spec
-	kinds  map[string]string
-	req    map[string][]string
+	// sloppyKind is the one kind of decision this schema may get wrong (so that every construction
+	// rule is violated about equally often, not just the first one the generator meets)
+	sloppyKind string
+	spec       *Spec
+	kinds      map[string]string
+	req        map[string][]string
 }
 
 func union(a, b []string) []string {
@@ -64,8 +67,8 @@ func (g *schemaGen) randReq() []string {
 }
 
 // careless reports whether this decision may ignore the rules (consumes one unit of sloppiness).
-func (g *schemaGen) careless() bool {
-	if g.sloppy > 0 && g.r.Chance(1, 6) {
+func (g *schemaGen) careless(kind string) bool {
+	if g.sloppy > 0 && kind == g.sloppyKind && g.r.Chance(3, 5) {
 		g.sloppy--
 		return true
 	}
@@ -149,7 +152,7 @@ func (g *schemaGen) genArgs() []ArgSpec {
 
 // fieldReq picks the required features of a field of parent type `parent` given its type and arguments.
 func (g *schemaGen) fieldReq(parent string, ftype string, args []ArgSpec) []string {
-	if g.careless() {
+	if g.careless("field") {
 		return g.randReq()
 	}
 	need := g.typeReq(ftype)
@@ -172,8 +175,9 @@ func (g *schemaGen) genField(parent string, name string) FieldSpec {
 func genSpec(r *hx.Rand) *Spec {
 	g := &schemaGen{r: r, spec: &Spec{Query: "Query", Types: builtinScalarSpecs()}, kinds: map[string]string{}, req: map[string][]string{}}
 	g.feats = []string{"a", "b", "c"}[:r.Range(1, 3)]
-	if r.Chance(2, 5) {
+	if r.Chance(1, 2) {
 		g.sloppy = r.Range(1, 2)
+		g.sloppyKind = hx.Pick(r, []string{"field", "field", "field", "union", "input", "impl", "implreq", "implargs", "nouncond", "conn"})
 	}
 	add := func(kind, name string, req []string) {
 		g.spec.Types = append(g.spec.Types, TypeSpec{Kind: kind, Name: name, Req: req})
@@ -208,6 +212,14 @@ func genSpec(r *hx.Rand) *Spec {
 		add("object", "Mutation", mreq)
 		g.spec.Mutation = "Mutation"
 	}
+	if r.Chance(1, 4) {
+		var sreq []string
+		if r.Chance(1, 10) {
+			sreq = []string{hx.Pick(r, g.feats)} // a gated root (F-13f)
+		}
+		add("object", "Subscription", sreq)
+		g.spec.Subscription = "Subscription"
+	}
 	// unions first: their requirement must cover the members' (no conditional members)
 	for i := range g.spec.Types {
 		t := &g.spec.Types[i]
@@ -216,14 +228,14 @@ func genSpec(r *hx.Rand) *Spec {
 		}
 		objs := []string{}
 		for _, o := range g.names("object") {
-			if o != "Query" && o != "Mutation" {
+			if o != "Query" && o != "Mutation" && o != "Subscription" {
 				objs = append(objs, o)
 			}
 		}
 		hx.Shuffle(r, objs)
 		t.Members = append(t.Members, objs[:r.Range(1, imin(3, len(objs)))]...)
 		sort.Strings(t.Members)
-		if g.careless() {
+		if g.careless("union") {
 			t.Req = g.randReq()
 		} else {
 			for _, m := range t.Members {
@@ -247,7 +259,7 @@ func genSpec(r *hx.Rand) *Spec {
 			for j, n := 0, r.Range(1, 3); j < n; j++ {
 				ft := wrap(r, g.inputBase(t.Name), r.Chance(1, 4))
 				t.Inputs = append(t.Inputs, ArgSpec{Name: fmt.Sprintf("k%d", j), Type: ft})
-				if !g.careless() {
+				if !g.careless("input") {
 					t.Req = union(t.Req, g.typeReq(ft))
 					g.req[t.Name] = t.Req
 				}
@@ -271,7 +283,7 @@ func genSpec(r *hx.Rand) *Spec {
 		if t.Kind != "object" {
 			continue
 		}
-		if t.Name != "Query" && t.Name != "Mutation" {
+		if t.Name != "Query" && t.Name != "Mutation" && t.Name != "Subscription" {
 			for _, in := range g.names("interface") {
 				if !r.Chance(2, 5) {
 					continue
@@ -283,7 +295,7 @@ func genSpec(r *hx.Rand) *Spec {
 						compatible = false // the object could not expose this field's types with the interface field's features
 					}
 				}
-				if !compatible && !g.careless() {
+				if !compatible && !g.careless("impl") {
 					continue
 				}
 				t.Ifaces = append(t.Ifaces, in)
@@ -293,7 +305,7 @@ func genSpec(r *hx.Rand) *Spec {
 					}
 					nf := FieldSpec{Name: f.Name, Type: f.Type, Args: append([]ArgSpec(nil), f.Args...), Req: append([]string(nil), f.Req...)}
 					switch {
-					case g.careless():
+					case g.careless("implreq"):
 						nf.Req = g.randReq()
 					case r.Chance(1, 6):
 						// fewer features than the interface field asks for (allowed when the object's own
@@ -303,17 +315,20 @@ func genSpec(r *hx.Rand) *Spec {
 					if !strings.HasSuffix(nf.Type, "!") && r.Chance(1, 6) {
 						nf.Type += "!" // covariant
 					}
-					if g.careless() && len(nf.Args) > 0 {
+					if g.careless("implargs") && len(nf.Args) > 0 {
 						nf.Args = nf.Args[1:]
 					}
 					t.Fields = append(t.Fields, nf)
 				}
 			}
-			if g.careless() {
+			if g.careless("nouncond") {
 				// no unconditional field
 			} else if !hasField(t, "id") || len(t.Fields) == 0 {
 				t.Fields = append(t.Fields, FieldSpec{Name: "n", Type: hx.Pick(r, []string{"Int", "String", "Int!"})})
 			}
+		}
+		if (t.Name == "Mutation" || t.Name == "Subscription") && !g.careless("nouncond") {
+			t.Fields = append(t.Fields, FieldSpec{Name: "touch", Type: "Int"})
 		}
 		for j, n := 0, r.Range(1, 3); j < n; j++ {
 			t.Fields = append(t.Fields, g.genField(t.Name, fmt.Sprintf("%sf%d", strings.ToLower(t.Name), j)))
@@ -323,7 +338,7 @@ func genSpec(r *hx.Rand) *Spec {
 	q := g.spec.find("Query")
 	q.Fields = append(q.Fields, FieldSpec{Name: "ok", Type: "Boolean"})
 	for _, t := range g.spec.Types {
-		if (t.Kind == "object" || t.Kind == "interface" || t.Kind == "union") && t.Name != "Query" && t.Name != "Mutation" && r.Chance(3, 4) {
+		if (t.Kind == "object" || t.Kind == "interface" || t.Kind == "union") && t.Name != "Query" && t.Name != "Mutation" && t.Name != "Subscription" && r.Chance(3, 4) {
 			ft := wrap(r, t.Name, true)
 			args := g.genArgs()
 			q.Fields = append(q.Fields, FieldSpec{Name: "get" + t.Name, Type: ft, Args: args, Req: g.fieldReq("Query", ft, args)})
@@ -332,6 +347,21 @@ func genSpec(r *hx.Rand) *Spec {
 	// connections
 	if r.Chance(1, 3) {
 		g.spec.Types = append(g.spec.Types, pageInfoSpec())
+		var ciNode string
+		if r.Chance(1, 2) {
+			// a connection interface that the connections below may implement
+			ciNode = g.outputBase()
+			var req []string
+			if g.careless("conn") {
+				req = g.randReq()
+			} else {
+				req = union(g.typeReq(ciNode), nil)
+				if r.Chance(1, 2) {
+					req = union(req, g.randReq())
+				}
+			}
+			g.spec.ConnIfaces = append(g.spec.ConnIfaces, ConnIface{Prefix: "Ci0", Node: ciNode, Req: req})
+		}
 		for c, n := 0, r.Range(1, 2); c < n; c++ {
 			hosts := []string{"Query"}
 			hosts = append(hosts, g.names("object")...)
@@ -340,11 +370,18 @@ func genSpec(r *hx.Rand) *Spec {
 				host = q
 			}
 			node := g.outputBase()
+			var impl []string
+			if ciNode != "" && r.Chance(2, 3) {
+				impl = []string{"Ci0"}
+				if !g.careless("conn") {
+					node = ciNode // the edge's node must be a subtype of the interface's
+				}
+			}
 			if r.Chance(1, 3) {
 				node += "!"
 			}
 			var req []string
-			if g.careless() {
+			if g.careless("conn") {
 				req = g.randReq()
 			} else {
 				// the connection/edge types carry the field's requirement, so it must cover the node type
@@ -353,7 +390,7 @@ func genSpec(r *hx.Rand) *Spec {
 					req = union(req, g.randReq())
 				}
 			}
-			host.Fields = append(host.Fields, FieldSpec{Name: fmt.Sprintf("conn%d", c), Req: req, Conn: &ConnSpec{Prefix: fmt.Sprintf("Cn%d", c), Node: node}})
+			host.Fields = append(host.Fields, FieldSpec{Name: fmt.Sprintf("conn%d", c), Req: req, Conn: &ConnSpec{Prefix: fmt.Sprintf("Cn%d", c), Node: node, Impl: impl}})
 		}
 	}
 	return g.spec
@@ -406,7 +443,7 @@ type VarDecl struct {
 }
 
 type Doc struct {
-	Op    string                 `json:"op"` // query | mutation
+	Op    string                 `json:"op"` // query | mutation | subscription
 	Vars  []VarDecl              `json:"vars,omitempty"`
 	Sels  []*Sel                 `json:"sels"`
 	Frags []FragDef              `json:"frags,omitempty"`
@@ -816,6 +853,16 @@ func genDoc(r *hx.Rand, spec *Spec, G map[string]bool) *Doc {
 		if m := spec.find(spec.Mutation); m != nil && subset(m.Req, G) {
 			g.doc.Op = "mutation"
 			root = m
+		}
+	}
+	if spec.Subscription != "" && r.Chance(1, 8) {
+		if m := spec.find(spec.Subscription); m != nil && subset(m.Req, G) {
+			// a subscription has exactly one root field
+			if fs := g.visibleFields(m); len(fs) > 0 {
+				g.doc.Op = "subscription"
+				g.doc.Sels = []*Sel{g.fieldSel(m, hx.Pick(r, fs), r.Range(1, 3))}
+				return g.doc
+			}
 		}
 	}
 	g.doc.Sels = g.sels(root, r.Range(2, 4))
